@@ -22,7 +22,7 @@ FLOORS = {'quick': {'span': 500, 'basis': 500, 'basis_one': 1000, 'ders': 500, '
                     'normalize': 50, 'check_reject': 50, 'hook:find_span': 50, 'hook:basis_function': 50},
           'thorough': {'span': 5000, 'basis': 5000, 'basis_one': 10000, 'ders': 5000, 'generate': 100,
                        'normalize': 500, 'check_reject': 500}}
-MANDATORY_TAGS = ['generate:count<=degree', 'u:near-end', 'kv:unclamped', 'kv:endrep', 'kv:random', 'kv:range', 'u:end', 'u:start', 'u:knot_full', 'deg7', 'deg1']
+MANDATORY_TAGS = ['large', 'generate:count<=degree', 'u:near-end', 'kv:unclamped', 'kv:endrep', 'kv:random', 'kv:range', 'u:end', 'u:start', 'u:knot_full', 'deg7', 'deg1']
 
 _CTX = [None]
 
@@ -175,10 +175,16 @@ def teardown(ctx):
 
 # -- generators -------------------------------------------------------------------------------------------------------
 def gen_basis_case(rng, p=None, cls=None):
+    large = p is None and cls is None and rng.random() < 0.08
     p = p or rng.choice([1, 2, 3, 3, 4, 5, 6, 7])
     n = p + 1 + rng.randint(0, 8)
     cls = cls or rng.choice(['uniform', 'random', 'random', 'random', 'fullmult', 'unclamped', 'unclamped_rep', 'range',
                              'fine', 'unclamped_endrep', 'endknot', 'unclamped-wide', 'jump'])
+    if large:
+        # degrees and knot counts beyond the usual small ones (a binary search takes 5-6 steps, many spans are never end spans)
+        p = rng.randint(6, 12)
+        n = p + 1 + rng.randint(15, 40)
+        cls = rng.choice(['uniform', 'random', 'random', 'fullmult', 'unclamped', 'unclamped_rep', 'range'])
     lohi = (0.0, 1.0)
     kcls = cls
     if cls == 'range':
@@ -224,7 +230,7 @@ def gen_basis_case(rng, p=None, cls=None):
     else:
         U = G.knot_vector(rng, p, n, kcls, lohi, fine=fine)
     params = G.param_classes(rng, p, U, nrand=4) + [(t_, u_) for t_, u_ in extra if U[p] < u_ < U[n]]
-    return {'kind': 'basis', 'p': p, 'n': n, 'kv': U, 'cls': cls, 'params': [[t, u] for t, u in params],
+    return {'kind': 'basis', 'p': p, 'n': n, 'kv': U, 'cls': cls, 'params': [[t, u] for t, u in params], 'large': large,
             'order': rng.randint(0, p) if rng.random() < 0.7 else rng.randint(p + 1, p + 3)}
 
 
@@ -323,6 +329,8 @@ def check_basis(case, ctx):
     ctx.nontriv(interior)
     ctx.tag('kv:' + ('endrep' if case['cls'] == 'unclamped_endrep' else 'range' if case['cls'] == 'range' else 'unclamped' if U[0] != U[p] else
                      'random' if case['cls'] in ('random', 'fine') else case['cls']), 'deg%d' % p)
+    if case.get('large'):
+        ctx.tag('large')
     cnt = Counter(U)
     with hooks.suspended():
         spans_l, us = [], []
